@@ -708,6 +708,7 @@ func RecoverWALData() {
 	for _, fileData := range walFilesData {
 		mBlock := initMetricsBlock(fileData.mId, fileData.segID, fileData.blockNo)
 		isWalFileEmpty := true
+		replayedFiles := make([]string, 0, len(fileData.walFiles))
 		for _, walFileName := range fileData.walFiles {
 			filePath := filepath.Join(baseDir, walFileName)
 			walIterator, err := wal.NewWALReader(filePath)
@@ -732,10 +733,7 @@ func RecoverWALData() {
 				isWalFileEmpty = false
 			}
 			_ = walIterator.Close()
-			err = deleteWalFile(baseDir, walFileName)
-			if err != nil {
-				log.Warnf("RecoverWALData : Failed to delete wal file %s: %v", walFileName, err)
-			}
+			replayedFiles = append(replayedFiles, walFileName)
 		}
 
 		if !isWalFileEmpty {
@@ -744,9 +742,19 @@ func RecoverWALData() {
 			if err != nil {
 				log.Warnf("RecoverWALData :Failed to flush block for shardID=%s, segID=%d, blockNo=%d: %v",
 					fileData.mId, fileData.segID, fileData.blockNo, err)
+				// keep the WAL files: they are the only copy of these datapoints
+				continue
 			}
 		}
 
+		// The WAL files are deleted only after the rebuilt block is on disk: a crash during
+		// recovery must leave the datapoints either in the WAL or in the block files.
+		for _, walFileName := range replayedFiles {
+			err = deleteWalFile(baseDir, walFileName)
+			if err != nil {
+				log.Warnf("RecoverWALData : Failed to delete wal file %s: %v", walFileName, err)
+			}
+		}
 	}
 }
 
@@ -2278,6 +2286,7 @@ func RecoverMNameWALData() {
 	for _, fileData := range walFilesData {
 		ms := initSegment(fileData.segID, strconv.FormatUint(fileData.mId, 10))
 		isWalFileEmpty := true
+		replayedFiles := make([]string, 0, len(fileData.walFiles))
 		for _, walFileName := range fileData.walFiles {
 
 			filePath := filepath.Join(mNameWalDir, walFileName)
@@ -2302,10 +2311,7 @@ func RecoverMNameWALData() {
 				isWalFileEmpty = false
 			}
 			_ = walIterator.Close()
-			err = deleteWalFile(mNameWalDir, walFileName)
-			if err != nil {
-				log.Warnf("RecoverMNameWALData : Failed to delete wal file %s: %v", walFileName, err)
-			}
+			replayedFiles = append(replayedFiles, walFileName)
 		}
 
 		if !isWalFileEmpty {
@@ -2313,9 +2319,18 @@ func RecoverMNameWALData() {
 			if err != nil {
 				log.Warnf("RecoverMNameWALData :Failed to flush Metrics Name for shardID=%d, segID=%d,: %v",
 					fileData.mId, fileData.segID, err)
+				// keep the WAL files: they are the only copy of these names
+				continue
 			}
 		}
 
+		// delete the WAL files only after the names file is on disk (see RecoverWALData)
+		for _, walFileName := range replayedFiles {
+			err = deleteWalFile(mNameWalDir, walFileName)
+			if err != nil {
+				log.Warnf("RecoverMNameWALData : Failed to delete wal file %s: %v", walFileName, err)
+			}
+		}
 	}
 }
 
